@@ -138,8 +138,12 @@ class AbstractAst:
                 raise RTAMTException('{} is not ANTRL4 ErrorListener'.format(parser._listeners[0].__class__.__name__))
             # characters that no token can start with are errors too, not console noise to be skipped
             lexer._listeners = [self.parserErrorListenerType()]
-        ctx = parser.specification_file()
-        self.visit(ctx.specification())
+        try:
+            ctx = parser.specification_file()
+            self.visit(ctx.specification())
+        except RecursionError:
+            # hundreds of chained operands or nested operators exhaust the interpreter's recursion limit
+            raise RTAMTException('The specification is nested too deeply')
         return
 
     @property
